@@ -310,7 +310,11 @@ fn c08<M: Machine>(_w: &World<M>, slot: u16, s: &Slot<M>, o: &Obs, cfg: CheckCfg
                     // roundings of mean*sum (library and ours), of the subtraction, the division
                     // and of mean*n standing in for sum: <= 10u*Q by Cauchy-Schwarz
                     let lim = bound + 10.0 + floor;
-                    if r.is_nan() || r > lim {
+                    // squares in or next to the subnormal range: the absolute floor swamps the
+                    // relative bound and the ratio itself is no longer computable in f64
+                    if !(floor.is_finite() && floor < 4.0) {
+                        stats.inc("c08_sumsq_skipped_squares_underflow");
+                    } else if r.is_nan() || r > lim {
                         return Some(Violation::new(
                             "C08",
                             "stat-sumsq-error-bound",
@@ -345,7 +349,11 @@ fn c09<M: Machine>(w: &World<M>, slot: u16, s: &Slot<M>, o_h: &Obs, cfg: CheckCf
     }
     let recs = sorted_records(w, &s.model);
     let plan = ObsPlan { confs: cfg.confs, unguarded: false };
-    let (bst, oneshot) = M::batch([&recs[0], &recs[1]], plan);
+    let (bst, oneshot) = match M::batch([&recs[0], &recs[1]], plan) {
+        Ok(x) => x,
+        // the one-batch computation itself refuses records every one of which is valid
+        Err(e) => return Some(Violation::new("C09", "batch-computation-rejects-valid-records", slot, e)),
+    };
     let o_b = M::observe(&bst, plan);
     stats.inc("c09_batch_comparisons");
     match M::FAMILY {
